@@ -340,3 +340,8 @@ def run(ctx: Ctx, rep: Report, tier: str) -> None:
     skip_forwarding(ctx, rep)
     ungroup_always_flattens(ctx, rep)
     report_in_position_order(ctx, rep)
+    # R11.9 premise: an entry that carries a log keyword is an entry of the ACL (C01 R01.18): refused words drop the line
+    # from the ACL with a warning and the report is silently incomplete
+    from .c01 import log_keywords_pass
+
+    log_keywords_pass(ctx, rep, rid="R11.9")
